@@ -14,7 +14,7 @@ EXHAUSTIVE = True
 NPROC = 8
 SHARDS = 8
 TASK_TIMEOUT = 600
-RULE = ("three scenario families. (1) force: every (haplotype column, target genotype) case emitted by TLC from the initial "
+RULE = ("four scenario families (plus get_optimal_assignments replays). (1) force: every (haplotype column, target genotype) case emitted by TLC from the initial "
         "states of MC_ForceGenotypes (all columns incl. undetermined slots x all genotypes up to ploidy 4-5 / 3 alleles), replayed "
         "into the real threading.force_genotypes with synthetic cluster paths / coverage maps / allele depths in the styles "
         "own (one cluster per slot), shared (collapsed clusters, empty clusters, extra clusters) and deep (>= 300 reads per "
@@ -26,7 +26,12 @@ RULE = ("three scenario families. (1) force: every (haplotype column, target gen
         "5-6 in thorough; 8-25 SNV sites incl. multi-allelic and adjacent ones, homozygous / missing / wrong-dosage genotypes, "
         "1-2 samples, 1-2 chromosomes, 30-80 error-free or noisy reads with uneven haplotype coverage, coverage gaps, collapsed "
         "haplotypes, pre-phased input) run through whatshap.cli.polyphase.run_polyphase for the grid block-cut sensitivity 0..5 x "
-        "use_prephasing on/off; non-trivial = the output has >= 2 phased variants of a processed sample and >= 1 phase set")
+        "use_prephasing on/off; non-trivial = the output has >= 2 phased variants of a processed sample and >= 1 phase set. "
+        "(4) twins: seeded worlds of ploidy 3-5 (6 in thorough) in which k >= 3 haplotypes are identical except for 1-3 groups of "
+        "2-3 neighbouring read-linked sites where 1..k-1 of them carry another allele (genotypes such as 0/0/0/1), the other "
+        "haplotypes differ nearly everywhere, 30-70 SNVs, long reads (15-30 sites), coverage of one twin 1x / 2x / 3x that of "
+        "its twins, run for every block-cut sensitivity 0..5: the twins collapse into one read cluster passed by k threads and "
+        "the groups are re-phased by the recursive sub-instances of phase_single_block; same non-triviality criterion")
 ASSUMPTIONS = [
     "TLC; Polyphase.tla is the reading of the statement: 'read-covered heterozygous variants' of a sample = heterozygous calls of the "
     "run's ploidy spanned by a read of that sample spanning >= max(2, min_overlap) of them (computed from the world, SNVs only, so "
@@ -36,6 +41,8 @@ ASSUMPTIONS = [
     "MC_ForceGenotypes assumes FiniteLikelihood (some permutation has a likelihood > -inf); the deep replay style does not",
     "only --tag PS is exercised (HP encoding of polyploid phasings is C09's subject); no indels, no --only-snvs",
     "e2e worlds are seeded samples, not an enumeration; ploidy 5-6 only in the thorough tier",
+    "twins worlds: whether a world really reaches a sub-instance with >= 3 threads and a non-singleton block is decided by the "
+    "heuristic, not recorded; about one world in six did when probed with a multiplicity-breaking change",
 ]
 
 PHASE_KEYS = ("PS", "HP", "HS", "PQ")
@@ -141,6 +148,14 @@ def scenarios(ctx):
                     scs.append(random_poly_scenario(rng, p, sens, prephase))
                     npoly += 1
     ctx.notes["polyphase_worlds"] = npoly
+    # ---- (4) collapsed-haplotype worlds: >= 3 nearly identical haplotypes with uneven coverage x all sensitivities ----------
+    ntw = 0
+    for p in ([3, 4, 5] if q else [3, 4, 5, 6]):
+        for sens in range(6):
+            for _ in range((6 if p == 4 else 3) if q else (60 if p <= 5 else 15)):
+                scs.append(twins_scenario(rng, p, sens))
+                ntw += 1
+    ctx.notes["collapsed_haplotype_worlds"] = ntw
     if not q:
         # the deep-coverage world: >= 249 reads per haplotype and one wrong-dosage genotype
         scs.append({"kind": "poly", "world": "deep", "seed": 3, "ploidy": 4, "sens": 4, "use_prephasing": False, "depth": 260})
@@ -171,6 +186,110 @@ def random_poly_scenario(rng, p, sens, prephase):
         "haploid_sets": rng.random() < 0.2,
         "ignore_rg": rng.random() < 0.3,
     }
+
+
+def twins_scenario(rng, p, sens):
+    """A world in which k >= 3 haplotypes of one sample are identical except for a few groups of neighbouring sites (so they
+    collapse into one read cluster passed by k threads, and the groups are re-phased recursively inside it), the other p - k
+    haplotypes differ from them nearly everywhere, and the coverage of the twins is even or skewed by a factor 2-3."""
+    k = rng.randint(3, max(3, p - 1))
+    return {
+        "kind": "poly", "world": "twins", "seed": rng.randrange(1 << 30), "ploidy": p, "sens": sens,
+        "use_prephasing": False, "distrust": False,
+        "ntwins": k,
+        "nvar": rng.randint(30, 70),
+        "spacing": rng.randint(25, 45),
+        "span": rng.randint(15, 30),                  # read length in sites
+        "depth": rng.choice([6, 10, 10, 14]),         # mean coverage per haplotype of weight 1
+        "ngroups": rng.randint(1, 3),
+        "skew": rng.choice([1.0, 2.0, 2.0, 3.0, 3.0]),
+        "skewed": rng.choice(["carrier", "carrier", "any"]),
+        "multiallelic": rng.random() < 0.15,
+        "err": rng.choice([0.0, 0.0, 0.0, 0.01]),
+        "min_overlap": 2,
+    }
+
+
+def _twins_world(sc, d):
+    from .. import world as W
+    rng = random.Random(sc["seed"])
+    p, k, nvar, spacing = sc["ploidy"], sc["ntwins"], sc["nvar"], sc["spacing"]
+    readlen = spacing * sc["span"]
+    L = spacing * (nvar + 2) + readlen
+    ref = W.random_reference(rng, L)
+    pos = [spacing * (i + 1) + rng.randint(0, spacing // 3) for i in range(nvar)]
+    sites = []
+    for x in pos:
+        alts = [b for b in BASES if b != ref[x]]
+        rng.shuffle(alts)
+        sites.append((x, ref[x], alts[:2 if sc["multiallelic"] and rng.random() < 0.3 else 1]))
+    # ---- haplotypes: twins share one base row; the others avoid the twins' allele at most sites ----
+    base = [rng.randint(0, len(a)) if rng.random() < 0.3 else 0 for (_, _, a) in sites]
+    haps = [list(base) for _ in range(k)]
+    for h in range(k, p):
+        row = []
+        for i, (_, _, a) in enumerate(sites):
+            if rng.random() < 0.92:
+                row.append(rng.choice([b for b in range(len(a) + 1) if b != base[i]]))
+            else:
+                row.append(base[i])
+        haps.append(row)
+    # ---- groups of 2-3 neighbouring sites at which a proper subset of the twins carries another allele ----
+    carriers_all = set()
+    free = list(range(3, nvar - 5))
+    for _ in range(sc["ngroups"]):
+        if not free:
+            break
+        g0 = rng.choice(free)
+        glen = rng.randint(2, 3)
+        free = [i for i in free if abs(i - g0) > 8]
+        carriers = rng.sample(range(k), rng.randint(1, k - 1) if rng.random() < 0.4 else 1)
+        carriers_all.update(carriers)
+        for i in range(g0, g0 + glen):
+            other = rng.choice([b for b in range(len(sites[i][2]) + 1) if b != base[i]])
+            for h in carriers:
+                haps[h][i] = other
+            for h in range(k, p):
+                if rng.random() < 0.7:
+                    haps[h][i] = base[i]
+    records = []
+    for i, (x, r, alts) in enumerate(sites):
+        gt = sorted(haps[h][i] for h in range(p))
+        keys = ["GT"] + rng.sample(["GQ", "DP"], rng.randint(0, 2))
+        vals = ["/".join(map(str, gt)) if k2 == "GT" else str(rng.randint(1, 99)) for k2 in keys]
+        records.append({"chrom": "chr1", "pos": x + 1, "id": f"v{i}", "ref": r, "alt": ",".join(alts), "qual": "50",
+                        "filter": "PASS", "info": "NOTE=n%d" % (i % 10), "fmt": keys, "calls": [vals]})
+    W.write_vcf(os.path.join(d, "in.vcf"), ["s1"], [("chr1", L)], records, fmt_keys=["GT", "GQ", "DP"])
+    # ---- reads: coverage of one twin (a carrier of a group allele, or any twin) is `skew` times that of its twins ----
+    weights = [1.0] * k + [rng.choice([1.0, 1.5]) for _ in range(p - k)]
+    cand = sorted(carriers_all) if (sc["skewed"] == "carrier" and carriers_all) else list(range(k))
+    weights[rng.choice(cand)] = sc["skew"]
+    seqs = []
+    for h in range(p):
+        q = list(ref)
+        for i, (x, r, alts) in enumerate(sites):
+            if haps[h][i] > 0:
+                q[x] = alts[haps[h][i] - 1]
+        seqs.append(q)
+    nreads = int(sc["depth"] * p * L / readlen)
+    hetidx = [i for i in range(nvar) if _het([haps[h][i] for h in range(p)])]
+    covered = set()
+    reads = []
+    for n in range(nreads):
+        st = rng.randrange(0, L - readlen)
+        h = rng.choices(range(p), weights)[0]
+        q = seqs[h][st:st + readlen]
+        if sc["err"]:
+            for (x, r, alts) in sites:
+                if st <= x < st + readlen and rng.random() < sc["err"]:
+                    q[x - st] = rng.choice([b for b in [r] + alts if b != q[x - st]])
+        reads.append({"name": f"r{n}", "ref": 0, "pos": st, "cigar": f"{readlen}M", "seq": "".join(q), "mapq": 60})
+        cov = [i for i in hetidx if st <= pos[i] < st + readlen]
+        if len(cov) >= 2:
+            covered.update(cov)
+    W.write_bam(os.path.join(d, "in.bam"), [("chr1", L)], reads)
+    return {"samples": ["s1"], "chroms": ["chr1"], "acc": {"s1": [100000 + pos[i] + 1 for i in sorted(covered)]},
+            "ignore_rg": True}
 
 
 # ================================================================================================
@@ -304,6 +423,8 @@ def build_world(sc, d):
     p = sc["ploidy"]
     if sc.get("world") == "deep":
         return _deep_world(sc, d)
+    if sc.get("world") == "twins":
+        return _twins_world(sc, d)
     samples = list(sc.get("sample_names") or ["s1", "s2"])[:sc["nsamples"]]
     nchrom = sc["nchrom"]
     min_olp = max(2, sc["min_overlap"])
@@ -542,7 +663,7 @@ def _drive_poly(sc):
     try:
         w = build_world(sc, d)
         samples, chroms = w["samples"], w["chroms"]
-        deep = sc.get("world") == "deep"
+        deep = sc.get("world") in ("deep", "twins")      # worlds with one sample and one chromosome, default options
         sel_samples = [samples[0]] if (not deep and sc["select_sample"]) else None
         sel_chroms = [chroms[0]] if (not deep and sc["select_chrom"]) else None
         kw = dict(phase_input_files=[os.path.join(d, "in.bam")], variant_file=os.path.join(d, "in.vcf"), ploidy=sc["ploidy"],
@@ -646,6 +767,9 @@ def signature(sc, events, clause):
     if sc.get("world") == "deep":
         return "polyphase world=deep (260 reads per haplotype, wrong-dosage genotype)"
     e = events[0] if events else {}
+    if sc.get("world") == "twins":
+        return (f"polyphase world=twins ploidy={sc['ploidy']} twins={sc['ntwins']} skew={sc['skew']}"
+                + (f" exception={e['exc'].split(':')[0]}" if e.get("ev") == "Poly" and e.get("exc") else ""))
     if e.get("ev") == "Poly" and e.get("exc"):
         return f"polyphase world=random ploidy={sc['ploidy']} exception={e['exc'].split(':')[0]}"
     return f"polyphase world=random ploidy={sc['ploidy']}"
@@ -682,7 +806,9 @@ MANIFEST = {
             "subset). Every enumerated column/genotype case is replayed into the real force_genotypes (three synthetic depth "
             "styles), every enumerated breakpoint list into the real compute_cut_positions/phase_single_individual, and seeded "
             "polyploid worlds (multi-allelic, uneven coverage, collapsed haplotypes, gaps, pre-phased input, 1-2 samples and "
-            "chromosomes) are run through run_polyphase for sensitivities 0..5 with and without --use-prephasing; TLC judges "
+            "chromosomes) are run through run_polyphase for sensitivities 0..5 with and without --use-prephasing; worlds with >= 3 "
+            "collapsed (nearly identical) haplotypes, read-linked heterozygous site groups inside the collapsed cluster and even or "
+            "2-3x skewed coverage among the collapsed haplotypes are run for sensitivities 0..5; TLC judges "
             "every recorded call / run against Polyphase.tla.",
     "note": "trusted: TLC, Polyphase.tla as reading of the statement, the world builder's notion of read-covered heterozygous "
             "variants (SNV worlds, exact), the projection of VCF text; phasing quality is not judged; only tag PS; end-to-end "
